@@ -12,6 +12,9 @@ JOBS = [
     dict(job=('specs.tr_units', 'w_op_passthrough', {'mode': 'disabled'}), props=['C04']),
     dict(job=('specs.tr_units', 'w_op_playback', {}), props=['C01', 'C02', 'C03']),
     dict(job=('specs.tr_units', 'play', {}), props=['C01', 'C02', 'C03', 'C09']),
+    # ---- playback/tape_cassette.py: metadata filter matching
+    dict(job=('specs.matcher', 'match_value', {}), props=['C14']),
+    dict(job=('specs.matcher', 'match_all', {}), props=['C14']),
 ]
 
 # case splits of the precondition (each case is a separate job; together they cover the whole precondition -- the covering is itself
@@ -61,4 +64,8 @@ CLAIMS = {
                 note=TB + 'The long-run fraction is a corollary of the per-decision contract and a uniform stream (not machine-checked).'),
     'C18': dict(text='Metadata postconditions per exit kind of the operation body on the real operation wrapper.', note=TB + 'time() monotone assumed.'),
 }
+CLAIMS['C14'] = dict(text='Totality (raises: never) and the documented meaning (spec function matches_value, one unfolding; recursion through the '
+                          "unit's own contract) discharged on the real _match_metadata_value / _operator_filter for all JSON-typed filters and values; "
+                          'loop invariant for match_against_recorded_metadata.',
+                     note=TB + 'fnmatch assumed total on str x str (A10); ordering between two containers left open.')
 NOT_APPLICABLE = {}
